@@ -758,6 +758,15 @@ def gen_C20(c, rng, tier):
                 for mode in range(4):
                     s = [e if e[0] != 'cb' else ['cb', ['builtin', mode, fmt.rtok(target)]] for e in s0]
                     c.add(t, 'run', s, classes=cl + ['mode_%d' % mode], mode_group=group, info=info, nontrivial=(kind == 'mc'))
+            for _ in range(scale(tier, 2, 12)):
+                # finite values whose squares overflow: the sums of squares become infinite - reporting and writing must cope in every mode
+                s0, cl, info = rand_run(rng, fmt, kind, iters=rng.choice([1, 2]), calls=[3, 6], cb=['builtin', 0, fmt.rtok(0)], poly=False, dists=[], value_classes=['small_int'])
+                huge = [fmt.round(fmt.max / 2), fmt.round(Fraction(2) ** (fmt.emax // 2 + 3)), Fraction(1), -fmt.round(Fraction(2) ** (fmt.emax // 2 + 5))]
+                s0 = [e if e[0] != 'f' else ['f', ['tab', toks(fmt, [rng.choice(huge) for _ in range(5)])]] for e in s0]
+                group = len(c.cases)
+                for mode in range(4):
+                    s = [e if e[0] != 'cb' else ['cb', ['builtin', mode, fmt.rtok(0)]] for e in s0]
+                    c.add(t, 'run', s, classes=cl + ['mode_%d' % mode, 'overflowing_squares'], mode_group=group, info=info, nontrivial=True)
             for _ in range(scale(tier, 3, 20)):
                 # a resumed checkpoint and a target precision: the decision must use the earlier results in every mode
                 iters = rng.choice([3, 4, 6]); target = rng.choice([Fraction(1, 4), Fraction(1, 10), Fraction(2, 5)])
